@@ -37,6 +37,7 @@ struct EnvState {
     bool monitor = false;
     bool in_inject = false;
     bool norm_full_len = false;
+    bool norm_zero_on_invalid = false;   // the normaliser reports an error (returns 0, writes nothing) for invalid UTF-8 (password operation only)
     bool misalign = false;          // allocator hands out blocks that are 8 but not 16 byte aligned
     bool lifo_reuse = false;        // allocator reuses the address of the block released last (same size)
     bool no_race_oracle = false;
@@ -68,11 +69,15 @@ extern u8 guard_hit[GUARD_MAX];
 extern bool have_edges, have_monitor;
 
 void start_tasks(int n);
+void scan_readonly_mappings();
+void clear_block_index();
 int resume(Task* t);
 void task_yield(Task* t, int why);
 void boundary_tick(Task* t);
 PtrInfo classify(const void* p, Task* t, OpRec* rec);
 void make_deps(polyseed_dependency* d, int gen, unsigned opt);
 void reset_run();
+extern std::vector<void*>* inject_pages_p;
+void nested_inject(int gen, unsigned opt);      // defined by the executor: polyseed_inject called from inside a dependency
 void kdf_stream(const bytes& pw, const bytes& salt, u64 iter, u8* out, size_t n);
 }
